@@ -38,6 +38,19 @@ func serveGo(ch *lab.Child, svcs []string, hook string, mock bool) (*srv, error)
 	return &srv{ch: ch, ID: id, URL: ev.Str("url"), Ev: ev}, nil
 }
 
+// serveGoHooks registers the services in order, each with its own hook kind, on one mux of one process.
+func serveGoHooks(ch *lab.Child, svcs, hooks []string) (*srv, error) {
+	id := newID("s")
+	_, ev, err := ch.Do(map[string]any{"op": "serve", "id": id, "svcs": svcs, "hook": "none", "hooks": hooks, "mock": false}, 30*time.Second, "serving")
+	if err != nil {
+		return nil, err
+	}
+	if ev.Str("ev") != "serving" {
+		return nil, fmt.Errorf("serve failed: %v %v", ev["err"], ev["value"])
+	}
+	return &srv{ch: ch, ID: id, URL: ev.Str("url"), Ev: ev}, nil
+}
+
 func serveTS(ch *lab.Child, file, factory string, extra map[string]any) (*srv, error) {
 	id := newID("t")
 	cmd := map[string]any{"op": "serve", "id": id, "file": file, "factory": factory}
